@@ -304,6 +304,41 @@ def install_injection(spec):
         cc.CatalogWriter.finalize = finalize
 
 
+TABLE_LEN = 6
+
+
+def random_tables(spec):
+    """the weights / redshifts tables a random generator draws from (from_random with spec['weights'] /
+    spec['redshifts']); fault kind 'gentable' puts a non-finite value into one or both: fault['tables'] =
+    {'w': [kind, row], 'z': [kind, row]}"""
+    import numpy as np
+    tabs = {}
+    if spec["weights"]:
+        tabs["w"] = np.asarray([(k + 1) / 4.0 for k in range(TABLE_LEN)], dtype="f8")
+    if spec["redshifts"]:
+        tabs["z"] = np.asarray([(k + 1) / 8.0 for k in range(TABLE_LEN)], dtype="f8")
+    if spec["fault"]["kind"] == "gentable":
+        for col, (kind, row) in spec["fault"]["tables"].items():
+            tabs[col][row] = {"nan": float("nan"), "inf": float("inf"), "neginf": float("-inf")}[kind]
+    return tabs
+
+
+def make_generator(yaw, spec, tolerant=False):
+    """the generator of a from_random case.  tolerant (harness side only, to know what a catalog that was wrongly
+    returned should hold): built from finite tables, the faulty tables are put in place afterwards"""
+    import numpy as np
+    tabs = random_tables(spec)
+    given = tabs if not tolerant else {k: np.where(np.isfinite(v), v, 1.0) for k, v in tabs.items()}
+    gen = yaw.randoms.BoxRandoms(*random_window(spec["ncent"]), weights=given.get("w"), redshifts=given.get("z"),
+                                 seed=spec["dseed"])
+    if tolerant:
+        if "w" in tabs:
+            gen.weights = tabs["w"]
+        if "z" in tabs:
+            gen.redshifts = tabs["z"]
+    return gen
+
+
 def faulty_generator(yaw, spec):
     """BoxRandoms whose draw number `chunk` after the last reseed fails like a source that cannot be read (the reader
     reseeds when the iteration starts, so draw k is chunk k)"""
@@ -354,7 +389,9 @@ def create(spec, yaw):
         if f["kind"] == "genfail":
             gen = faulty_generator(yaw, spec)
         else:
-            gen = yaw.randoms.BoxRandoms(*random_window(spec["ncent"]), seed=spec["dseed"])
+            # inside the measured call: a generator that refuses its tables (non-finite weights / redshifts to draw
+            # from) is a creation that raises before any writer exists
+            gen = make_generator(yaw, spec)
         kw.pop("patch_name", None)
         return yaw.Catalog.from_random(spec["cache"], gen, spec["n"], **kw)
     kw.update(ra_name="ra", dec_name="dec")
